@@ -84,6 +84,7 @@ class ServerWorld:
         self.req_of_task = {}           # task id -> request tag (scheduler runs)
         self.cur_req = None             # request tag (sequential runs)
         self.sched = None
+        self.stream_aborts = []       # (tag, exception type) when the server raised mid-stream
         self.sched_spec = sched_spec
         self.trace = trace
         self._cm = None
@@ -242,8 +243,15 @@ class ServerWorld:
                         parts.append(c if isinstance(c, str) else c.decode())
                     else:
                         closed_early = True
+            except Exception as e:      # the server raised while streaming: the connection is cut
+                self.log.add("stream_aborted", tag, type(e).__name__)
+                self.stream_aborts.append((tag, type(e).__name__))
             finally:
-                r.close()
+                try:
+                    r.close()
+                except Exception as e:
+                    self.log.add("stream_close_raised", tag, type(e).__name__)
+                    self.stream_aborts.append((tag, type(e).__name__))
             resp = Resp(r.status_code, "".join(parts))
             return resp, closed_early, parts
         finally:
